@@ -100,7 +100,7 @@ func genC13(out *Out, r *Rng, tier string, n int, shard int) {
 			why = append(why, "MarshalBinary failed: "+err.Error())
 		}
 		bs2, _ := mz.MarshalBinary() // second marshal samples another map order
-		for cfg := 0; cfg < 3 && err == nil; cfg++ {
+		for cfg := 0; cfg < 4 && err == nil; cfg++ {
 			var w2 []string
 			opts := []merklize.MerklizeOption{merklize.WithHasher(hs.H), merklize.WithDocumentLoader(loader)}
 			wantOK := true
@@ -121,6 +121,18 @@ func genC13(out *Out, r *Rng, tier string, n int, shard int) {
 				opts = append(opts, merklize.WithMerkleTree(merklize.MerkleTreeSQLAdapter(mt)))
 				wantOK = false
 				cname = "other-tree"
+			case 3: // a tree whose root is almost the recorded one (one off, one bit off): still not the recorded root
+				mt, _ := merkletree.NewMerkleTree(ctx, memory.NewMemoryStorage(), 40)
+				if e := merklize.AddEntriesToMerkleTree(ctx, merklize.MerkleTreeSQLAdapter(mt), run.Entries); e != nil {
+					continue
+				}
+				nm, e := merkletree.NewHashFromBigInt(nearMiss(mt.Root().BigInt(), r))
+				if e != nil {
+					continue
+				}
+				opts = append(opts, merklize.WithMerkleTree(&rootedTree{MerkleTree: merklize.MerkleTreeSQLAdapter(mt), root: nm}))
+				wantOK = false
+				cname = "near-miss-tree"
 			}
 			in := bs
 			if cfg == 1 {
@@ -243,3 +255,11 @@ func genC13(out *Out, r *Rng, tier string, n int, shard int) {
 }
 
 func init() { gens["C13"] = genC13 }
+
+// rootedTree: a caller's tree (any implementation of the interface) that reports the given root
+type rootedTree struct {
+	merklize.MerkleTree
+	root *merkletree.Hash
+}
+
+func (t *rootedTree) Root() *merkletree.Hash { return t.root }
